@@ -129,7 +129,7 @@ PROPS = {
              "leaves (live and dead), GetHash at every position, 3 random Prove requests, NodeMap/NumDels/CachedLeaves counts; "
              "then redo with other blocks; Pollard, full MapPollard (TotalRows 0,5,63) and partial MapPollard (TotalRows 0,63; "
              "deletions verified with remember first; stored map and cached set dumped)",
-        strength="P: C06_map_forest_general_block_then_undo and C06_map_forest_k_blocks_then_k_undos - the mirror of MapPollard.Modify then MapPollard.Undo (general blocks: deletions incl. siblings/subtrees/whole trees, additions over empty roots, remap), to ANY depth, returns to a state consistent with the forest before the blocks: same roots, leaf count, and by the read-side theorems same positions and byte-identical proofs (full and partial forests, any allocated height); C06_map_forest_undo_general_block: Undo alone from any state in the invariant; C06_map_forest_mixed_histories / _as_if_never_applied: every valid history MIXING blocks and undos on a full map forest ends observationally equal to the clean history without the undone blocks (partial forests: under the explicit premise undo_tidy, validated not proved); Pollard (pointer forest): V only; undo is the exact inverse on the reference to any depth, observational equivalence is a bisimulation; V: implementations after Undo = reference previous state; Gallina mirror of MapPollard.Modify/Undo (Model/MapMut.v) = code state-for-state on every call",
+        strength="P: C06_map_forest_general_block_then_undo and C06_map_forest_k_blocks_then_k_undos - the mirror of MapPollard.Modify then MapPollard.Undo (general blocks: deletions incl. siblings/subtrees/whole trees, additions over empty roots, remap), to ANY depth, returns to a state consistent with the forest before the blocks: same roots, leaf count, and by the read-side theorems same positions and byte-identical proofs (full and partial forests, any allocated height); C06_map_forest_undo_general_block: Undo alone from any state in the invariant; C06_map_forest_mixed_histories / _as_if_never_applied: every valid history MIXING blocks and undos on a map forest ends observationally equal to the clean history without the undone blocks (full AND partial forests: C06_partial_map_forest_mixed_histories / _as_if_never_applied); Pollard (pointer forest): V only; undo is the exact inverse on the reference to any depth, observational equivalence is a bisimulation; V: implementations after Undo = reference previous state; Gallina mirror of MapPollard.Modify/Undo (Model/MapMut.v) = code state-for-state on every call",
         level_text="The reference-level inverse (one block and any depth) is a Coq theorem; that Pollard.Undo and MapPollard.Undo "
                    "(full and partial) land in a state observationally identical to the reference's previous state is judged by the "
                    "extracted oracle after every single undo and after redo on another branch.",
